@@ -1017,7 +1017,15 @@ impl Gen {
     }
 
     fn val(&mut self, ty: &Ty, allow_null: bool, depth: usize) -> Val {
-        if allow_null && !matches!(ty, Ty::Union { .. }) && self.rng.chance(15, 100) {
+        // a union has no validity of its own, also not behind a dictionary / run-end wrapper
+        fn nullable(t: &Ty) -> bool {
+            match t {
+                Ty::Union { .. } => false,
+                Ty::Dict(_, e) | Ty::Ree(_, e) => nullable(e),
+                _ => true,
+            }
+        }
+        if allow_null && nullable(ty) && self.rng.chance(15, 100) {
             return Val::Null;
         }
         match ty {
@@ -1049,6 +1057,7 @@ impl Gen {
 fn null_fill(ty: &Ty) -> Val {
     match ty {
         Ty::Union { kids, .. } => Val::Union(0, Box::new(null_fill(&kids[0]))),
+        Ty::Dict(_, e) | Ty::Ree(_, e) => null_fill(e),
         _ => Val::Null,
     }
 }
